@@ -2,12 +2,13 @@ import NemoVerif.Drive.Common
 import NemoVerif.Models.Serialize
 import NemoVerif.Models.CleanUp
 import NemoVerif.Models.SerializeRefs
+import NemoVerif.Models.SerializeShared
 
 /-
   Line protocol of C11 (Python twin: harness/impl/c11pv.py).
   PV:  null | true/false | {"i":n} | {"f":[m,e]} | {"s":str} | {"l":[..]} | {"t":[..]} | {"S":[..]} | {"q":[..]}
        | {"d":[[key,v]..]} | {"D":[cls,[[key,v]..]]} | {"R":[[key,v]..]} | {"st":v} | {"e":[cls,name]} | {"dt":iso}
-       | {"a":[uid,name,flow_uid|null,status,ctx,args,scope]} | {"p":1} | {"r":[pattern,flags]} | {"c":1} | {"o":cls}
+       | {"a":[uid,name,flow_uid|null,status,ctx,args,scope]} | {"p":1} | {"r":[pattern,flags]} | {"c":[op,value]} | {"o":cls}
   key: null | true/false | {"i":n} | {"s":str} | {"T":[atom..]}   atom: null | true/false | {"i":n} | {"s":str}
 -/
 namespace NemoVerif.Drive.C11
@@ -87,7 +88,9 @@ partial def pvOfJson (j : Json) : Except String PV :=
     else if let .ok v := j.getObjVal? "r" then do
       let a ← v.getArr?
       if h : a.size = 2 then do pure (.regex (← a[0].getStr?) (← a[1].getInt?)) else throw "bad r"
-    else if let .ok _ := j.getObjVal? "c" then pure .cmp
+    else if let .ok v := j.getObjVal? "c" then do
+      let a ← v.getArr?
+      if h : a.size = 2 then do pure (.cmp (← a[0].getStr?) (← pvOfJson a[1])) else throw "bad c"
     else if let .ok v := j.getObjVal? "o" then do pure (.other (← v.getStr?))
     else throw "bad pv object"
   | _ => throw "bad pv"
@@ -111,7 +114,7 @@ partial def pvToJson : PV → Json
   | .action u n fu st c a sc => Json.mkObj [("a", Json.arr #[.str u, .str n, (match fu with | some s => .str s | none => .null), .str st, pvToJson c, pvToJson a, Json.num (JsonNumber.fromInt sc)])]
   | .partialFn => Json.mkObj [("p", Json.num 1)]
   | .regex p f => Json.mkObj [("r", Json.arr #[.str p, Json.num (JsonNumber.fromInt f)])]
-  | .cmp => Json.mkObj [("c", Json.num 1)]
+  | .cmp op v => Json.mkObj [("c", Json.arr #[.str op, pvToJson v])]
   | .other c => Json.mkObj [("o", .str c)]
 
 /-- the JSON text the model says `state_to_json` writes; floats travel as {"__f":[m,e]} so that
@@ -163,7 +166,7 @@ def flowToJson (f : Flow) : Json :=
   Json.mkObj [("uid", .str f.uid), ("children", Json.arr (f.children.map Json.str).toArray),
     ("heads", Json.arr (f.heads.map fun h => Json.mkObj [("uid", .str h.uid), ("n_scores", Json.num (JsonNumber.fromNat h.scores.length))]).toArray)]
 
-partial def labOfJson (j : Json) : Except String Refs.Lab :=
+partial def labOfJson (j : Json) : Except String (Refs.Lab Nat Nat) :=
   match j with
   | .num _ => pure (.leaf 0)
   | _ =>
@@ -177,14 +180,62 @@ partial def labOfJson (j : Json) : Except String Refs.Lab :=
       else throw "bad n"
     else throw "bad lab"
 
-partial def encToJson : Refs.Enc → Json
+partial def encToJson : Refs.Enc Nat Nat → Json
   | .leaf _ => Json.num 0
   | .seq ys => Json.mkObj [("q", Json.arr (ys.map encToJson).toArray)]
   | .defn i _ ys => Json.mkObj [("def", Json.arr #[Json.num (JsonNumber.fromNat i), Json.arr (ys.map encToJson).toArray])]
   | .ref i => Json.mkObj [("ref", Json.num (JsonNumber.fromNat i))]
 
+open NemoVerif.Shared in
+def scalarOfJson (j : Json) : Except String Scalar :=
+  match j with
+  | .null => pure .none
+  | .bool b => pure (.bool b)
+  | _ =>
+    if let .ok v := j.getObjVal? "i" then do pure (.int (← v.getInt?))
+    else if let .ok v := j.getObjVal? "s" then do pure (.str (← v.getStr?))
+    else if let .ok v := j.getObjVal? "f" then do
+      let a ← v.getArr?
+      if h : a.size = 2 then do pure (.flt (← a[0].getInt?) (← a[1].getNat?)) else throw "bad f"
+    else throw "bad scalar"
+
+open NemoVerif.Shared in
+def tagOfJson (j : Json) : Except String Tag := do
+  let a ← j.getArr?
+  let s (i : Nat) : Except String String := match a[i]? with | some x => x.getStr? | none => throw "tag arity"
+  let keys (i : Nat) : Except String (List String) := match a[i]? with | some x => strList x | none => throw "tag arity"
+  match ← s 0 with
+  | "list" => pure .list | "tuple" => pure .tuple | "set" => pure .set | "deque" => pure .deque
+  | "dictStr" => pure (.dictStr (← keys 1))
+  | "dictItems" => pure .dictItems
+  | "data" => pure (.data (← s 1) (← keys 2))
+  | "enum" => pure (.enum (← s 1) (← s 2))
+  | "datetime" => pure (.datetime (← s 1))
+  | "specType" => pure (.specType (← s 1))
+  | "regex" => match a[2]? with | some f => pure (.regex (← s 1) (← f.getInt?)) | none => throw "tag arity"
+  | "cmp" => match a[2]? with | some v => pure (.cmp (← s 1) (← scalarOfJson v)) | none => throw "tag arity"
+  | t => throw s!"bad tag {t}"
+
+open NemoVerif.Shared in
+partial def cvOfJson (j : Json) : Except String CV :=
+  if let .ok v := j.getObjVal? "n" then do
+    let a ← v.getArr?
+    if h : a.size = 3 then do
+      let kids ← (← a[2].getArr?).toList.mapM cvOfJson
+      pure (.node (← a[0].getNat?) (← tagOfJson a[1]) kids)
+    else throw "bad n"
+  else do pure (.leaf (← scalarOfJson j))
+
 def handle (op : String) (j : Json) : Except String Json := do
   match op with
+  | "shared" =>
+    -- concrete encoder with refs on an identity-labelled value; the decoder must give the value back
+    let t ← cvOfJson (← j.getObjVal? "t")
+    let r := Shared.encodeC [] t
+    let back := match Shared.decodeC [] r.1 with
+      | some _ => true
+      | none => false
+    pure (Json.mkObj [("enc", jToJson r.1), ("decodes", .bool back), ("wf", .bool (Shared.WfCV t))])
   | "refs" =>
     let t ← labOfJson (← j.getObjVal? "t")
     let r := Refs.encodeS [] t
